@@ -71,15 +71,24 @@
        the wrapped map), after n calls of next() the wrapped map is well formed and its elems are
        the first len - min n len entries of the original: exactly those not yet yielded (it yields
        from the back: r = firstn n (rev elems)); nothing is logged.
+       Composed with the consuming session (Proofs/Gaps.v):
+       C19_iter_debug_rest  : iter() + n calls of next(): cursor (min n len, len), raw slots of
+       that cursor = skipn n elems, container unchanged;
+       C19_into_debug_rest  : the raw reading Exec.elems of the wrapped map after n calls of
+       IntoIter::next = the not-yet-yielded prefix;
+       C19_drain_debug_rest : DRAIN - drain() + n calls of next(): the raw slots of its cursor
+       (in a container whose len is already 0) = skipn n of the original elems;
+       C19_drain_debug_rest_render : ... and the interpreter's Debug of that Drain
+       (Exec.dbg_range) is the debug_pairs rendering (plain or alternate) of skipn n elems.
 
    PARTLY COVERED / NOT COVERED BY A THEOREM
      - alternate form {:#?}: see above (definition = model of std; correspondence check).
-     - Drain: its Debug is [debug_pairs .. (range_list (self w) (lo, hi))] on a container whose
-       len has already been reset to 0, so C19_range_list_spec (which needs hi <= len) does NOT
-       apply to it.  That slots lo..hi-1 are then still initialised is IterSpec.drain_run_spec
-       (DrainInv; Props/C10.v), that they still hold the original entries lo..hi-1 — those not
-       yet drained — is the [Agree] conjunct of IterSpec.drain_run_strong; neither is composed
-       with the renderer here, so for Drain this clause rests on the correspondence check.
+     - Drain: CLOSED.  Its Debug is [debug_pairs .. (range_list (self w) (lo, hi))] on a
+       container whose len has already been reset to 0, so C19_range_list_spec (which needs
+       hi <= len) does not apply to it; C19_drain_debug_rest / C19_drain_debug_rest_render now
+       compose IterSpec.drain_run_strong with the renderer.  (Stated for a Drain consumed by
+       next() from the front; Set::drain is the same function on Map<T,()>, with debug_keys
+       over map fst of that list - that projection is glue, see below.)
      - the Debug impls of the set-algebra iterators (src/set/difference.rs etc.) are rendered
        with debug_keys over the keys still to come as computed by the interpreter; no theorem
        here relates that list to Algebra's specification (Props/C08.v).
@@ -90,7 +99,7 @@
 (* ========================================================================== *)
 Require Import Model.Base Model.Slots Model.MapOps Model.Fmt Model.Exec.
 Require Import Proofs.Hoare Proofs.Inv Proofs.Safety Proofs.Safety2 Proofs.Spec Proofs.Lawful.
-Require Import Proofs.FmtSerde Proofs.IterSpec Proofs.Legacy.
+Require Import Proofs.FmtSerde Proofs.IterSpec Proofs.Legacy Proofs.Gaps.
 
 (* -------------------------------------------------------------------------- *)
 (* FmtSerde.display_map_spec, display_set_spec                                 *)
@@ -214,6 +223,76 @@ Proof. exact (@into_run_spec). Qed.
 Print Assumptions C19_into_run_spec.
 
 (* -------------------------------------------------------------------------- *)
+(* Gaps.drain_debug_rest, drain_debug_rest_render, iter_debug_rest, into_debug_rest:
+   the list a partly consumed iterator hands to its Debug impl, composed with the
+   session that consumed it (interpreter key type `key`; V, T arbitrary)          *)
+
+(* Drain (the container's len is already 0, so C19_range_list_spec does not apply):
+   after n calls of next() the raw slots of the drain's cursor hold exactly the
+   entries it has not yet yielded, skipn n of the original content *)
+Theorem C19_drain_debug_rest :
+  forall (V T : Type) (n : nat) (w : world key V T),
+    WF (self w) ->
+    wp (c <- drain ;; drain_run n c)
+       (fun (r : list (key * V) * cursor) (w' : world key V T) =>
+          range_list (self w') (snd r) = skipn n (Spec.elems (self w)) /\
+          range_list (self w') (snd r) =
+            skipn (Nat.min n (length (Spec.elems (self w)))) (Spec.elems (self w)) /\
+          fst r = firstn n (Spec.elems (self w)))
+       (fun _ : world key V T => False)
+       w.
+Proof. exact (@drain_debug_rest). Qed.
+Print Assumptions C19_drain_debug_rest.
+
+(* ... composed with the renderer the interpreter uses for `format!("{:?}", drain)`
+   (Exec.dbg_range dk dv alt c := r_str (debug_pairs dk dv alt (range_list (self w) c)),
+   r_str s = length-prefixed s): the Debug output of a Drain that has yielded n
+   entries is the debug_pairs rendering, plain or alternate, of exactly the other ones *)
+Theorem C19_drain_debug_rest_render :
+  forall (V : Type) (dk : key -> str) (dv : V -> str) (alt : bool) (n : nat)
+         (w : world key V cstate),
+    WF (self w) ->
+    wp (c <- drain ;; r <- drain_run n c ;; dbg_range dk dv alt (snd r))
+       (fun (s : list N) (_ : world key V cstate) =>
+          s = r_str (debug_pairs dk dv alt (skipn n (Spec.elems (self w)))))
+       (fun _ : world key V cstate => False)
+       w.
+Proof. exact (@drain_debug_rest_render). Qed.
+Print Assumptions C19_drain_debug_rest_render.
+
+(* borrowing iterators: the session of n calls of next() from iter() leaves the
+   container as it is, ends at cursor (min n len, len), and the raw slots of that
+   cursor are skipn n of the content *)
+Theorem C19_iter_debug_rest :
+  forall (V T : Type) (n : nat) (w : world key V T),
+    WF (self w) ->
+    wp (c <- iter ;; iter_run n c)
+       (fun (r : list nat * cursor) (w' : world key V T) =>
+          self w' = self w /\
+          snd r = (Nat.min n (len (self w)), len (self w)) /\
+          range_list (self w') (snd r) = skipn (Nat.min n (len (self w))) (Spec.elems (self w)) /\
+          range_list (self w') (snd r) = skipn n (Spec.elems (self w)))
+       (fun _ : world key V T => False)
+       w.
+Proof. exact (@iter_debug_rest). Qed.
+Print Assumptions C19_iter_debug_rest.
+
+(* owning iterators: after n calls of next() the RAW reading Exec.elems of the
+   wrapped map - what its Debug formats - is the not-yet-yielded prefix *)
+Theorem C19_into_debug_rest :
+  forall (V T : Type) (n : nat) (w : world key V T),
+    WF (self w) ->
+    wp (into_run n)
+       (fun (r : list (key * V)) (w' : world key V T) =>
+          Exec.elems (self w') =
+            firstn (len (self w) - Nat.min n (len (self w))) (Spec.elems (self w)) /\
+          r = firstn n (rev (Spec.elems (self w))))
+       (fun _ : world key V T => False)
+       w.
+Proof. exact (@into_debug_rest). Qed.
+Print Assumptions C19_into_debug_rest.
+
+(* -------------------------------------------------------------------------- *)
 (* Non-vacuity.  m3 (Proofs/Legacy.v) = [ (K1 c5, V2 d7); (K3 c6, V4 d8); (K5 c7, V6 d9) ]. *)
 Example C19_example_WF : WF (self (w_of m3)).
 Proof. exact m3_WF. Qed.
@@ -257,3 +336,13 @@ Example C19_example_into :
   | _ => False
   end.
 Proof. vm_compute. repeat split. Qed.
+
+(* a Drain over m3 that has yielded one entry: its Debug {:?} is the 28 characters
+   [(K3c6, V4d8), (K5c7, V6d9)]  - exactly the two entries not yet yielded *)
+Example C19_example_drain_debug :
+  match (c <- drain ;; r <- drain_run 1 c ;; dbg_range dbg_key dbg_val false (snd r)) (w_of m3) with
+  | Ok s w' => s = r_str (debug_pairs dbg_key dbg_val false [(k_ 3 6, v_ 4 8); (k_ 5 7, v_ 6 9)]) /\
+               length s = 29 /\ len (self w') = 0
+  | _ => False
+  end.
+Proof. vm_compute. repeat split; reflexivity. Qed.
